@@ -323,6 +323,37 @@ func (ex *Exec) symElemLoad(p SymElemPtr) Value {
 	if _, isView := p.Elems[lo].(View); isView {
 		return ex.symElemLoadView(p, lo, hi)
 	}
+	// a table of constant booleans becomes a disjunction of index ranges
+	if e0, ok := p.Elems[lo].(*T); ok && e0.s.K == KBool {
+		allConst := true
+		for k := lo; k <= hi; k++ {
+			e, ok := p.Elems[k].(*T)
+			if !ok || !e.IsConst() {
+				allConst = false
+				break
+			}
+		}
+		if allConst {
+			var ors []*T
+			w := p.Idx.s.W
+			for k := lo; k <= hi; k++ {
+				if !p.Elems[k].(*T).IsTrue() {
+					continue
+				}
+				j := k
+				for j+1 <= hi && p.Elems[j+1].(*T).IsTrue() {
+					j++
+				}
+				if j == k {
+					ors = append(ors, c.Eq(p.Idx, c.Const(w, k)))
+				} else {
+					ors = append(ors, c.And(c.Ule(c.Const(w, k), p.Idx), c.Ule(p.Idx, c.Const(w, j))))
+				}
+				k = j
+			}
+			return c.Or(ors...)
+		}
+	}
 	var res *T
 	for k := int64(hi); k >= int64(lo); k-- {
 		e, ok := p.Elems[k].(*T)
